@@ -1,7 +1,7 @@
 #!/usr/bin/env python3
 """seedall.py [tier]: run every archived seeded change (seeded/<id>/patch.diff) through the check of its property
 (apply to /repo, ./check, restore) and print one line per change.  Exit 1 if any change is not reported.
-NOTE: overwrites evidence/<Cnn>.json with violation runs; re-run the checks on the clean tree afterwards."""
+(seedtest.py saves and restores evidence/<Cnn>.json around each run.)"""
 import json, os, subprocess, sys, glob
 tier = sys.argv[1] if len(sys.argv) > 1 else "quick"
 missed = []
